@@ -19,6 +19,9 @@ FLOORS = {"AGREE-simulation": 8, "T-query-pure": 15}
 
 
 def run(W, chk):
+    from rules.common import borrow
+    borrow(W, chk, "C13", {"CUT-minimum-receive"}, "what the executed route delivers is the amount the quote is compared with")
+    borrow(W, chk, "C04", {"PROV-swap-outflow"}, "the executed route pays out exactly the computed return")
     sc.simulation_wiring(W, chk)
     sc.swap_result_wiring(W, chk)
     # execution books exactly the quoted values (shared with C04)
